@@ -1114,6 +1114,76 @@ def rule_specified(ctx):
     return r
 
 
+_MUTATORS = {"add", "discard", "remove", "update", "pop", "popitem", "clear", "append", "extend", "insert", "setdefault",
+             "subtract", "sort", "reverse", "__setitem__", "__delitem__"}
+
+
+def rule_modelown(ctx):
+    """(seed C07_14) The predicted size / cost / number of slices are those of the tree actually sliced only while the
+    model's running figures are the ones its own constructor and `remove` derive from the contractions.  Ownership:
+    outside class ContractionCosts nothing stores into, deletes from, augments or calls a mutating method on a
+    model's state attributes (a finder that drops 'uninteresting' sizes from `cost0._sizes` predicts a smaller
+    largest-intermediate than `tree.max_size()` of the sliced tree)."""
+    r = RuleResult("C07-MODELOWN", "only ContractionCosts writes a cost model's running figures", 1)
+    cc = ctx.p.cls(C.SLICER, "ContractionCosts")
+    C.require(cc is not None, "ContractionCosts not found")
+    slots = None
+    for st in cc.node.body:
+        if isinstance(st, ast.Assign) and any(isinstance(t, ast.Name) and t.id == "__slots__" for t in st.targets):
+            slots = C.str_consts(st.value)
+    C.require(slots and len(slots) >= 6, "ContractionCosts.__slots__ not found")
+    private = {a for a in slots if a.startswith("_")}
+    public = set(slots) - private
+    n_funcs = 0
+    bad = []
+    for m in ctx.p.modules.values():
+        parents = m.parents
+        for f in m.all_funcs:
+            if f.cls is not None and f.cls.name == "ContractionCosts" and f.module.path == C.SLICER:
+                continue
+            n_funcs += 1
+            for n in walk_local(f.node):
+                if not isinstance(n, ast.Attribute):
+                    continue
+                recv = C.unparse(n.value, 80)
+                is_model = "cost" in recv.lower()
+                if not ((n.attr in private and (is_model or f.module.path == C.SLICER)) or (n.attr in public and is_model)):
+                    continue
+                # a tree has `_flops` / `_sizes` too
+                if recv in ("self", "tree", "other", "new") and not (f.module.path == C.SLICER):
+                    continue
+                par = parents.get(n)
+                how = None
+                if isinstance(n.ctx, (ast.Store, ast.Del)):
+                    how = "assigns" if isinstance(n.ctx, ast.Store) else "deletes"
+                elif isinstance(par, ast.AugAssign) and par.target is n:
+                    how = "augments"
+                elif isinstance(par, ast.Subscript) and par.value is n and isinstance(par.ctx, (ast.Store, ast.Del)):
+                    how = "stores into"
+                elif isinstance(par, ast.Subscript) and par.value is n and isinstance(parents.get(par), ast.AugAssign) and parents.get(par).target is par:
+                    how = "augments an entry of"
+                elif isinstance(par, ast.Attribute) and par.value is n and par.attr in _MUTATORS and isinstance(parents.get(par), ast.Call) \
+                        and parents.get(par).func is par:
+                    how = f"calls .{par.attr}() on"
+                if how:
+                    bad.append((f, n, how, recv))
+    k = f"{C.SLICER}::ContractionCosts::C07-MODELOWN"
+    if bad:
+        for f, n, how, recv in bad:
+            r.violation(f"{f.module.path}::{f.qual}::C07-MODELOWN::{recv}.{n.attr}", C.loc(f, n),
+                        f"{f.qual} {how} `{recv}.{n.attr}`: the model's figures no longer follow from its contractions, so the size / cost it "
+                        "predicts for a set of indices is not that of the tree sliced on them")
+    else:
+        r.ok(k, C.loc(cc, cc.node), f"no write to {sorted(slots)} of a cost model outside its class ({n_funcs} functions scanned)")
+        if not getattr(ctx, "_is_positive_example", False):
+            src = ctx.p.sources[C.SLICER]
+            r.note(C.positive_example(
+                ctx, rule_modelown,
+                [(C.SLICER, None, src + "\n\ndef _c07_modelown_positive_example(finder):\n    finder.cost0._sizes.discard(1)\n")],
+                "_c07_modelown_positive_example"))
+    return r
+
+
 def _shared_rules():
     """The model's predictions equal the figures of the sliced tree only if the tree's own slicing arithmetic follows the same definitions."""
     out = []
@@ -1129,5 +1199,5 @@ def _shared_rules():
     return out
 
 
-RULES = [rule_forbid, rule_filter, rule_agree, rule_apply, rule_model, rule_intcost, rule_arith, rule_modelcopy,
+RULES = [rule_modelown, rule_forbid, rule_filter, rule_agree, rule_apply, rule_model, rule_intcost, rule_arith, rule_modelcopy,
          rule_modes, rule_specified] + _shared_rules()
